@@ -23,7 +23,7 @@ func knownNonNil(t Term) bool {
 // elemLoad reads the value at a slice-element address.
 func (fr *Frame) elemLoad(st *State, a *Addr) Term {
 	u := fr.u
-	t := sel(sel(u.get(st, "E_"+a.ElemSort), a.Base), a.Idx)
+	t := sel(sel(u.get(st, u.elemComp(a.ElemTyp)), a.Base), a.Idx)
 	ct := a.ElemTyp
 	for _, i := range a.Path {
 		si := u.sorts.structOf(ct)
@@ -52,7 +52,7 @@ func (u *Unit) updatePath(v Term, t types.Type, path []int, nv Term) Term {
 
 func (fr *Frame) elemStore(st *State, a *Addr, v Term) {
 	u := fr.u
-	comp := "E_" + a.ElemSort
+	comp := u.elemComp(a.ElemTyp)
 	E := u.get(st, comp)
 	inner := sel(E, a.Base)
 	nv := v
@@ -75,7 +75,7 @@ func (fr *Frame) exec(st *State, ins ssa.Instruction) {
 			base := u.def("arr", SInt, a)
 			u.set(st, "alloc", "(+ "+a+" 1)")
 			zero := fmt.Sprintf("((as const (Array Int %s)) %s)", es, u.sorts.zero(arr.Elem()))
-			u.set(st, "E_"+es, store(u.get(st, "E_"+es), base, zero))
+			u.set(st, u.elemComp(arr.Elem()), store(u.get(st, u.elemComp(arr.Elem())), base, zero))
 			fr.vals[x] = Val{T: base, Sort: "arrptr", Typ: x.Type()}
 			return
 		}
@@ -102,7 +102,7 @@ func (fr *Frame) exec(st *State, ins ssa.Instruction) {
 			fr.safe(st, "nil", x.Pos(), "field address of nil pointer", not(eq(base.T, "null")))
 		}
 		t := u.mkSub(base.T, x.Field)
-		fr.vals[x] = Val{T: t, Sort: SRef, Typ: x.Type()}
+		fr.vals[x] = Val{T: t, Sort: SRef, Typ: x.Type(), FBase: base.T, FStruct: x.X.Type().Underlying().(*types.Pointer).Elem(), FIdx: x.Field}
 	case *ssa.Field:
 		base := fr.val(x.X)
 		si := u.sorts.structOf(x.X.Type())
@@ -147,7 +147,7 @@ func (fr *Frame) exec(st *State, ins ssa.Instruction) {
 			fr.safe(st, "nil", x.Pos(), "store through nil pointer", not(eq(addr.T, "null")))
 		}
 		fr.frameCheck(st, addr.T, x.Pos())
-		u.storeTo(st, addr.T, x.Val.Type(), v.T)
+		u.storePtr(st, addr, x.Val.Type(), v.T)
 	case *ssa.Call:
 		res := fr.call(st, x, x.Common(), x.Pos())
 		if x.Type() != nil {
@@ -201,7 +201,8 @@ func (fr *Frame) exec(st *State, ins ssa.Instruction) {
 		}
 		es := u.sorts.sortOf(et)
 		zero := fmt.Sprintf("((as const (Array Int %s)) %s)", es, u.sorts.zero(et))
-		u.set(st, "E_"+es, store(u.get(st, "E_"+es), base, zero))
+		u.set(st, u.elemComp(et), store(u.get(st, u.elemComp(et)), base, zero))
+		u.assume(implies(st.guard, fmt.Sprintf("(= (basetype %s) %d)", base, u.P.tagOf(types.NewSlice(et)))))
 		fr.setVal(st, x, "(mkSlice "+base+" 0 "+ln.T+" "+cp.T+")")
 	case *ssa.MakeMap:
 		mt := x.Type().Underlying().(*types.Map)
@@ -297,7 +298,7 @@ func (fr *Frame) unop(st *State, x *ssa.UnOp) {
 		if !knownNonNil(v.T) {
 			fr.safe(st, "nil", x.Pos(), "load through nil pointer", not(eq(v.T, "null")))
 		}
-		val := fr.setVal(st, x, u.load(st, v.T, x.Type()))
+		val := fr.setVal(st, x, u.loadPtr(st, v, x.Type()))
 		u.typeFacts(st, val.T, x.Type())
 	case token.NOT:
 		fr.setVal(st, x, not(v.T))
@@ -694,6 +695,10 @@ func (fr *Frame) frameCheck(st *State, addr Term, pos token.Pos) {
 	}
 	u.subFact(addr)
 	alts = append(alts, "(>= (rootid "+rootT+") "+u.get(root.entry, "alloc")+")")
+	if rootT != addr {
+		// a location inside the nil object is no location at all (a callee's assigns clause evaluated on a nil receiver)
+		alts = append(alts, "(= "+rootT+" null)")
+	}
 	u.oblige(fr.oblFn, "frame", "", fr.pos(pos), "store inside assigns clause", st.guard, or(alts...))
 }
 
@@ -703,9 +708,13 @@ func (fr *Frame) frameElem(st *State, base Term, pos token.Pos) {
 	if root.contract == nil || root.assignAll {
 		return
 	}
-	alts := []Term{"(>= " + base + " " + u.get(root.entry, "alloc") + ")"}
+	alts := []Term{"(>= " + base + " " + u.get(root.entry, "alloc") + ")", "(= " + base + " 0)"}
 	for _, b := range root.elemBases {
 		alts = append(alts, eq(base, b))
+	}
+	if fr.elemRoot != "" {
+		// the slice lives in a nil object: a callee's elems clause evaluated on a nil receiver names nothing
+		alts = append(alts, "(= "+fr.elemRoot+" null)")
 	}
 	u.oblige(fr.oblFn, "frame.elem", "", fr.pos(pos), "element store inside elems clause", st.guard, or(alts...))
 }
